@@ -11,7 +11,10 @@ from .props import c02 as V
 VGET, VSET, VSUB, VUNSUB, VRECV, VRAW = 50, 51, 52, 53, 54, 55
 INT_TEXTS = ["0", "1", "5", "10", "-1", "-10", "127", "128", "-128", "-129", "255", "256", "32767", "32768", "65535",
              "65536", "2147483647", "2147483648", "-2147483648", "4294967295", "4294967296", "9223372036854775807",
-             "9223372036854775808", "18446744073709551615", "18446744073709551616", "+5", "-0", "007"]
+             "9223372036854775808", "18446744073709551615", "18446744073709551616", "+5", "-0", "007",
+             # numerals whose low 8 / 16 / 32 bits are small: a narrowing cast instead of a range check accepts them
+             "4294967338", "4294967301", "-4294967291", "8589934592", "4294967423", "65541", "261", "-251",
+             "18446744073709551621", "-18446744073709551611"]
 BAD_NUM_TEXTS = ["", " 5", "5 ", "5.0", "1e3", "0x10", "1_000", "--5", "+-5", "abc", "5a", "٣", "1,5", "-", "+", "true"]
 FLOAT_TEXTS = ["0", "0.0", "-0.0", "1.5", "-2.25", "10", "10.0", "-10.0", "12.5", "100", "0.1", "9.5", "+3", "11", "-11", ".5", "7."]
 BAD_FLOAT_TEXTS = ["", "abc", "1.5.2", "1,5", " 1.5", "--1", "0x1p3"]
@@ -56,9 +59,10 @@ def value_text(v):
 
 
 class VGen(H.Gen):
-    def __init__(self, rng):
+    def __init__(self, rng, open_mode=False):
         super().__init__(rng, W_VISS, nsig=(4, 8), allow_expiry=False, plain_meta=0.55)
         self.vsubs = 0
+        self.open_mode = open_mode
 
     def setup(self):
         super().setup()
@@ -72,6 +76,14 @@ class VGen(H.Gen):
         self.sigs = [(s[0], s[1], s[2], 2 if L_is_act(L, s[1]) else s[3], s[4]) for s in self.sigs]
 
     def tok(self):
+        if self.open_mode:
+            # the server runs with authorization disabled: whatever is presented (often nothing) is served
+            r = self.rng
+            c = r.random()
+            return [3] + ([0] if c < 0.5 else [2] if c < 0.65 else self.tok_plain())
+        return self.tok_plain()
+
+    def tok_plain(self):
         r = self.rng
         c = r.random()
         if c < 0.08:
@@ -151,8 +163,8 @@ def L_is_act(L, path):
     return False
 
 
-def gen_case(rng, length=(10, 40)):
-    g = VGen(rng)
+def gen_case(rng, length=(10, 40), open_mode=False):
+    g = VGen(rng, open_mode)
     g.setup()
     for _ in range(rng.randrange(*length)):
         g.op()
@@ -168,6 +180,23 @@ def _str(l, i):
     return bytes(l[i + 1:i + 1 + n]).decode("utf-8", "replace"), i + 1 + n
 
 
+def _tok(l, i):
+    if l[i] == 3:
+        t, j = _tok(l, i + 1)
+        return ("open", t), j
+    if l[i] == 1:
+        return ("p", l[i + 1]), i + 2
+    return (("none",) if l[i] == 0 else ("bad",)), i + 1
+
+
+def tok_name(t):
+    if t is None:
+        return ""
+    if t[0] == "open":
+        return " [authorization disabled;%s]" % (tok_name(t[1]).strip(" []") or "?")
+    return " [p%d]" % t[1] if t[0] == "p" else " [no token]" if t[0] == "none" else " [bad token]"
+
+
 def parse_viss(l):
     op = l[0]
     d = {"op": op, "name": {50: "VGET", 51: "VSET", 52: "VSUB", 53: "VUNSUB", 54: "VRECV", 55: "VRAW"}[op]}
@@ -175,10 +204,7 @@ def parse_viss(l):
         d["text"], _ = _str(l, 1)
         return d
     if op in (VGET, VSET, VSUB):
-        if l[1] == 1:
-            d["tok"], i = ("p", l[2]), 3
-        else:
-            d["tok"], i = (("none",) if l[1] == 0 else ("bad",)), 2
+        d["tok"], i = _tok(l, 1)
         d["path"], i = _str(l, i)
         if op == VSET:
             if l[i] == 0:
@@ -359,13 +385,23 @@ def _judge_viss(d, o, P, paths, meta, subs, core_lines, core_out):
         if name in ("VGET", "VSET", "VSUB"):
             tok = d["tok"]
             r = o[0]
-            if tok[0] != "p":
+            if tok[0] == "open":
+                # authorization disabled: served with full rights (principal 0 of these cases holds every scope)
+                if not (P.scopes and all(P.can(0, a, "Vehicle.Any", False) for a in ("read", "actuate", "provide", "create"))):
+                    fails.append("generator: principal 0 of an open-mode case must hold every scope")
+                    continue
+                if r[0] == 1 and r[1] in (401, 403) and r != [1, 401, 5]:
+                    fails.append("C06-viss-open: authorization is disabled, yet %s with%s answered %s" % (
+                        name, tok_name(tok[1]), r))
+                p = 0
+            elif tok[0] != "p":
                 want = [1, 401, 4] if tok[0] == "none" else [1, 401, 3]
                 if r != want:
                     fails.append("C20-token: %s with %s answered %s" % (
                         name, "no token" if tok[0] == "none" else "a token that does not verify", r))
                 continue
-            p = tok[1]
+            else:
+                p = tok[1]
             i = paths.get(d["path"])
             if i is None:
                 if r[:2] != [1, 404]:
@@ -454,7 +490,7 @@ def pretty(lines):
         elif 50 <= l[0] <= 54:
             d = parse_viss(l)
             t = d.get("tok")
-            who = "" if t is None else (" [p%d]" % t[1] if t[0] == "p" else " [no token]" if t[0] == "none" else " [bad token]")
+            who = tok_name(t)
             if d["name"] == "VSET":
                 out.append("VISS set%s %s := %r" % (who, d["path"], d["text"]))
             elif d["name"] in ("VGET", "VSUB"):
